@@ -349,10 +349,14 @@ func (c *Ctx) independentInputs(name string) []wfInput {
 				var names []string
 				for k, v := range r.Tags {
 					switch v.(type) {
-					case int, string, byte, []byte:
+					case int, string, byte, []byte, float64:
 						tags[k] = v
 						names = append(names, k)
 					}
+				}
+				if c.rng.Intn(2) == 0 { // single-precision values widened to float64: their float32 and float64 shortest decimals differ
+					tags["XF"] = []float64{float64(float32(0.1)), float64(float32(1) / 3), 1099512676352, float64(math.Float32frombits(c.rng.Uint32()&0x7f7fffff | 1)), 63310.0 / 1024}[c.rng.Intn(5)]
+					names = append(names, "XF")
 				}
 				r.Tags = tags
 				sort.Strings(names)
@@ -370,6 +374,8 @@ func (c *Ctx) independentInputs(name string) []wfInput {
 						f = append(f, k+":A:"+string([]byte{v}))
 					case []byte:
 						f = append(f, k+":H:"+fmt.Sprintf("%x", v))
+					case float64:
+						f = append(f, k+":f:"+strconv.FormatFloat(v, 'e', -1, 64))
 					}
 				}
 				b.WriteString(strings.Join(f, "\t") + "\n")
@@ -1124,11 +1130,49 @@ func alignRound4(c *Ctx, prop string) {
 		a, b := c.bytesFrom(al, 45+c.rng.Intn(20)), c.bytesFrom(al, 45+c.rng.Intn(20))
 		alignCase(c, prop, mt, a, b, "big-asymmetric")
 	}
+	// (1b) tables of more than 2^20 cells with non-zero gap-open, where a mismatch costs more than an insertion
+	// next to a deletion (adjacent gap runs of different kinds): the steps must re-score to the returned score
+	if prop == "C08" || prop == "C10" {
+		m := align.SubstitutionMatrix{}
+		for _, x := range []byte("acgt") {
+			for _, y := range []byte("acgt") {
+				m[[2]byte{x, y}] = -10
+			}
+			m[[2]byte{x, x}] = 3
+			m[[2]byte{x, align.Gap}] = -1
+			m[[2]byte{align.Gap, x}] = -1
+		}
+		m[[2]byte{align.Gap, align.Gap}] = -2
+		a := c.bytesFrom([]byte("acgt"), 1100)
+		b := append([]byte(nil), a...)
+		for p := 50; p < len(b); p += 97 {
+			b[p] = "acgt"[(strings.IndexByte("acgt", b[p])+1)%4]
+		}
+		b = append(b[:500], b[503:]...)
+		var gs, ls []align.Step
+		var gsc, lsc float64
+		var lai, lbi int
+		res := safe(func() string { gs, gsc = align.Global(a, b, m); ls, lai, lbi, lsc = align.Local(a, b, m); return "" })
+		oracle := ""
+		if res == "PANIC" {
+			oracle = "Global/Local panicked on 1100-base sequences"
+		} else if sc, ai, bi, ok := rescore(m, a, b, gs); !ok || ai != len(a) || bi != len(b) || sc != gsc {
+			oracle = fmt.Sprintf("Global on 1100x1097 bases (gap-open -2, mismatch -10): returned score %v, its steps score %v", gsc, sc)
+		} else if lai < 0 || lbi < 0 || lai > len(a) || lbi > len(b) {
+			oracle = "Local start offsets out of range"
+		} else if sc, _, _, ok := rescore(m, a[lai:], b[lbi:], ls); !ok || sc != lsc {
+			oracle = fmt.Sprintf("Local on 1100x1097 bases (gap-open -2, mismatch -10): returned score %v, its steps score %v", lsc, sc)
+		}
+		c.add(Case{Kind: "big-adjacent-gap-runs", Nontrivial: true, Oracle: oracle, Note: "align.Global/Local on 1100-base sequences differing by substitutions, match 3 / mismatch -10 / gap -1 / gap-open -2"})
+	}
 	// (2) sequences that use (almost) every byte value, with Levenshtein and a match/mismatch matrix over all bytes
 	if prop != "C10" {
 		for i := 0; i < c.n(2); i++ {
 			perm := c.rng.Perm(255)
 			a := make([]byte, 0, 300)
+			if i%2 == 1 {
+				a = append(a, 255) // Levenshtein is defined on all 256 byte values (255 is an ordinary symbol there)
+			}
 			for _, p := range perm {
 				a = append(a, byte(p))
 			}
